@@ -230,10 +230,15 @@ def run(ctx):
     if not opt_lists:
         raise AnalysisError('grammar has no optional-element list any more; R15.3 premise changed')
     for fi in ctx.repo.funcs('fst_core', '_unmake_fst_tree'):
-        txt = norm(ast.unparse(fi.node), 100000)
-        ctx.check('R15.3', 'f.a = a.f = None' in txt or ('f.a = None' in txt and 'a.f = None' in txt), fi.module, fi.qualname, 'f.a = a.f = None',
+        # both links are stored None in the descent (any variable names): some `<x>.a = ... = None` and some `<y>.f = ... = None`
+        none_attrs = set()
+        for n in ast.walk(fi.node):
+            if isinstance(n, ast.Assign) and isinstance(n.value, ast.Constant) and n.value.value is None:
+                none_attrs |= {t.attr for t in n.targets if isinstance(t, ast.Attribute)}
+        ctx.check('R15.3', {'a', 'f'} <= none_attrs, fi.module, fi.qualname, 'f.a = a.f = None',
                   'a detached node must have both links cleared, otherwise walk() cannot tell it is dead', fi.lineno)
-        ctx.check('R15.3', 'for field in a._fields' in txt, fi.module, fi.qualname, 'for field in a._fields',
+        via_fields = any(isinstance(n, ast.For) and isinstance(n.iter, ast.Attribute) and n.iter.attr == '_fields' for n in ast.walk(fi.node))
+        ctx.check('R15.3', via_fields, fi.module, fi.qualname, 'for field in a._fields',
                   'children must be enumerated through the grammar (_fields)', fi.lineno)
         tests = [n for n in walk_no_nested(fi.node) if isinstance(n, ast.Call) and call_name(n) == 'isinstance' and len(n.args) == 2
                  and isinstance(n.args[0], ast.Subscript) and norm(n.args[0].value) == 'child']
